@@ -228,6 +228,7 @@ RULES = [
     ("C01-R5", "without the option no descent through a link [shared with C01]", lambda ctx: __import__("c01").r5(ctx)),
     ("C01-R1", "depth window on the level grid, including directories shallower than the root (reached through links) [shared with C01]", lambda ctx: __import__("c01").r1(ctx)),
     ("X-CANON", "util::canonical_path answers with the path resolved by fs::canonicalize (no shortcut for paths that look canonical) [shared]", lambda ctx: __import__("extra2").canonical_path_is_canonical(ctx)),
+    ("X-ROOTS", "root options: defaults, per-root binding, options kept when a regexp root is expanded (archives, symlinks, depth window) [shared]", lambda ctx: __import__("extra").root_defaults(ctx)),
 ]
 
 EXPLANATION = (
